@@ -29,6 +29,7 @@ func c06TailBurst(addr string, cid int, seed uint64, rounds int) (viol [][2]stri
 	defer t.Close()
 	const W = 1500 * time.Millisecond
 	serial := uint16(g.Intn(60000))
+	withheld := 0
 	for round := 0; round < rounds; round++ {
 		rid := core.Pick(g.Rand, []uint16{0x0002, 0x0200, 0x0100, 0x0704})
 		body := c06Body(g, rid, v2019, t.Phone)
@@ -105,6 +106,15 @@ func c06TailBurst(addr string, cid int, seed uint64, rounds int) (viol [][2]stri
 				return viol, true, done // neither way: slow machine or dead connection, not decided here
 			}
 			if time.Since(t0) < W/10 && check(r1, "after the next message") {
+				withheld++
+				if withheld < 3 {
+					// a loaded machine can delay one reply by more than W: only a pattern that repeats is a verdict.
+					// Drain the sentinel's own reply so that the next round starts in step.
+					if _, okd, tod := t.Next(W); tod || !okd {
+						return viol, true, done
+					}
+					continue
+				}
 				bad("reply|reply withheld until later traffic arrived", fmt.Sprintf("conn %d round %d: request %04x (followed in the same write by %s) got no reply during %v of silence, and was answered %v after the next message was sent", cid, round, rid, []string{"response-type messages", "response-type messages", "fragments 1..n-1 of a sub-packaged upload"}[kind], W, time.Since(t0).Round(time.Millisecond)))
 				return
 			}
@@ -145,7 +155,7 @@ func c06Reissue(addr string, cid int) (viol [][2]string, incon bool, frames int)
 		body[i] = byte(0x30 + i%40)
 	}
 	t.Write(t.SubFrame(0x0801, 10, 2, 1, body[:30]))
-	time.Sleep(5300 * time.Millisecond)
+	time.Sleep(6000 * time.Millisecond) // the server's idle clock starts when IT has handled the packet: a second of margin for a loaded machine
 	t.Write(t.Frame(0x0002, 20, nil))
 	var ids []uint16
 	next := func() bool {
